@@ -323,17 +323,25 @@ class ForkSim:
         me = sim.me()
         if me is None or me.is_main:
             raise sched.HarnessError("fork() outside an actor")
+        # the child re-enters the function that called fork() with the same arguments (whatever its
+        # name and signature are); its own os.fork() then returns 0
         frame = sys._getframe(1)
         loc = frame.f_locals
+        code = frame.f_code
         srv = loc.get("self")
-        fname = frame.f_code.co_name
-        if srv is None or "request" not in loc or "client_address" not in loc:
-            raise sched.HarnessError("fork() from unexpected frame %s" % fname)
+        fname = code.co_name
+        argnames = list(code.co_varnames[:code.co_argcount + code.co_kwonlyargcount])
+        if srv is None or not argnames or argnames[0] != "self" or not hasattr(srv, fname) or \
+                any(a not in loc for a in argnames):
+            raise sched.HarnessError("fork() from a frame the simulator cannot re-enter: %s" % fname)
         fn = getattr(srv, fname)
-        req = loc["request"]
-        if isinstance(req, simnet.SimSocket):
-            req = req.clone_for_child()
-        args = (req, loc["client_address"])
+
+        def dup(v):
+            if isinstance(v, simnet.SimSocket):
+                return v.clone_for_child()
+            return v
+
+        args = tuple(dup(loc[a]) for a in argnames[1:])
         pid = self.next_pid
         self.next_pid += 1
         info = {"status": None, "reaped": False, "returned": False, "actor": None,
